@@ -21,6 +21,8 @@ RULE = (
     "integrated. quick: every grid with N*(L+1)^2 <= 2e8 plus a seeded quarter of the more expensive ones; thorough: all 450. "
     "non-trivial = advertised degree >= 10; distinct = distinct (method, degree)"
 )
+RULE = RULE + " " + 'Every grid with <= 2000 points is additionally rebuilt through cache-fill, cache-hit and the size= route after the arrays of the previously returned grid were destroyed in place; all routes must give the identical quadrature.'
+
 ASSUMPTIONS = [
     "reference harmonics: own normalised three-term recurrence in float64 (self-tested against mpmath); quadrature sums accumulate rounding ~ eps*sum|w|*max|Y| << 1e-9",
     "which grids 'can be constructed' is taken from the data file names minus four unreachable extra files (pbt/oracles/data_loader.py)",
